@@ -67,10 +67,14 @@ P['C05']={
  "assumptions":["A-FRESH: a freshly drawn session id differs from the id the client presented (premise examined by C06)","A-COOKIE-TOKEN: the configured cookie-name prefix contains only RFC 6265 token characters (not checked by the loader)"],
  "note":"StoreInv (everything a store holds is held under an issued id) is preserved by every handler function"}
 P['C09']={
- "posts":{ H+"Process":["logout","inv","ok_justified","noerr","status"], H+"redirectToIDP":["old_sid","no_gen","view"] },
+ "posts":{ H+"Process":["logout","inv","ok_justified","noerr","status"], H+"redirectToIDP":["old_sid","no_gen","view"],
+   H+"Process@intf":["ok_after_logout","no_resurrection","callback_others","inv","lo_issued"], H+"redirectToIDP@intf":[], H+"retrieveTokens@intf":[], H+"refreshToken@intf":[] },
+ "variant":"intf",
+ "variant_functions":[H+"refreshToken",H+"redirectToIDP",H+"retrieveTokens",H+"Process"],
+ "kinds":["post","pre@call","frame","cover","lemma","inv-init","inv-step"],
  "lemmas":["L-absent-stable"],
- "required":[H+"Process:post:logout"],
- "note":"sequential half only: the logout answer, removal before answering, error instead of success when removal fails, and — by ok_justified — no OK for an absent session. The in-flight half (a refresh finishing after the logout re-creates the session) is the known finding K1 and is not decided by these obligations"}
+ "required":[H+"Process:post:logout", H+"Process@intf:post:ok_after_logout@ret1", H+"Process@intf:post:ok_after_logout@ret2", H+"Process@intf:post:no_resurrection@ret1", H+"Process@intf:post:no_resurrection@ret2", H+"redirectToIDP@intf:post:final", H+"refreshToken@intf:post:final", H+"retrieveTokens@intf:post:final_others"],
+ "note":"sequential half: the logout answer, removal before answering, error instead of success when removal fails, and — by ok_justified — no OK for an absent session. In-flight half (contract variant intf): between any two store operations of a check, other requests may have answered logouts of any sessions (ghost LoggedOut; the store contracts are restated over the content each operation finds); Process and its helpers are verified never to answer OK for, nor to bring back, a session whose logout has been answered, except by completing a login for it. This holds on every path but the token-refresh path: known finding K1"}
 P['C11']={
  "posts":{
   H+"refreshToken":["count","request","merged","validated","view","view_sid","clock"],
